@@ -806,7 +806,11 @@ package main
 
 //@ func largeFileReceive(wrt http.ResponseWriter, req *http.Request)
 //@   requires [C16] wrt != nil && req != nil && req.URL != nil
+// (the upload endpoint is registered only when media handling is configured; the store is opened before the listener)
+//@   requires [C16,assumed] configured: store.Store != nil && store.Files != nil
 //@   modifies *
+// (no request makes the handler crash: in particular a failed finalisation still reaches the clean-up of the stored bytes)
+//@   safe
 // (the API key and the credentials may sit in form fields: looking for them parses the whole body, so the size limit
 // has to be on the body before the first look)
 //@   assert at call getAPIKey [C16] size_limit_before_body_is_parsed: globals.maxFileUploadSize > 0 ==> bodyLimit[ref(req.Body)] == globals.maxFileUploadSize
